@@ -1165,7 +1165,7 @@ pub fn c04_conn_jobs(tier: Tier) -> Vec<Job> {
 
 fn c13_expect(input: &Input, obs: &mut Obs) -> Result<(), Fail> {
     let mut s = Src::new(input.bytes());
-    let limit = if s.chance(200) { [Some(5usize), Some(8), Some(1024), Some(2), Some(u32::MAX as usize), Some(1usize << 32), Some((1usize << 32) + 3), Some(usize::MAX)][s.weighted(&[4, 4, 4, 4, 1, 2, 2, 1])] } else { None };
+    let limit = if s.chance(200) { [Some(5usize), Some(8), Some(1024), Some(2), Some(u32::MAX as usize), Some(1usize << 32), Some((1usize << 32) + 3), Some(usize::MAX), Some(0), Some(1)][s.weighted(&[4, 4, 4, 4, 1, 2, 2, 1, 3, 2])] } else { None };
     let mut cfg = GenCfg::new(buf_size(), eff(limit));
     cfg.corrupt = 3;
     cfg.expect = 190;
